@@ -512,6 +512,9 @@ class Interp:
         b = self.env.builtin(name)
         if b is not None:
             return b
+        import builtins as _b
+        if hasattr(_b, name):
+            raise Unsupported('builtin %s has no environment contract' % name)
         raise_py('NameError', name)
 
     # ---------------------------------------------------------- calls
@@ -798,7 +801,7 @@ class Interp:
             qual = fr.selfcls.name + '.' + s.name
         fv = FuncVal(s, fr.module, fr if fr.func is not None else None,
                      owner=fr.selfcls if fr.func is None else None,
-                     qualname=fr.module.name + '.' + qual)
+                     qualname=qual if fr.func is not None else fr.module.name + '.' + qual)
         v = fv
         for d in reversed(s.decorator_list):
             try:
